@@ -61,7 +61,14 @@ fn main() {
     let code = match replay {
         None => {
             let ctx = Ctx::new(&id, tier, seed, false);
-            match vverif::props::run(&id, &ctx) {
+            let done = std::sync::atomic::AtomicBool::new(false);
+            let r = std::thread::scope(|s| {
+                s.spawn(|| ctx.watchdog(&done, "exploration"));
+                let r = vverif::props::run(&id, &ctx);
+                done.store(true, std::sync::atomic::Ordering::SeqCst);
+                r
+            });
+            match r {
                 Some(level) => ctx.finish(level),
                 None => {
                     eprintln!("unknown property {}", id);
@@ -87,7 +94,14 @@ fn main() {
             std::env::set_var("VCHECK_REPLAY_PATH", &path);
             let ctx = Ctx::new(&id, tier, seed, true);
             let case = v.get("case").cloned().unwrap_or(v);
-            match vverif::props::replay(&id, &ctx, &case) {
+            let done = std::sync::atomic::AtomicBool::new(false);
+            let r = std::thread::scope(|s| {
+                s.spawn(|| ctx.watchdog(&done, "exploration"));
+                let r = vverif::props::replay(&id, &ctx, &case);
+                done.store(true, std::sync::atomic::Ordering::SeqCst);
+                r
+            });
+            match r {
                 Some(level) => ctx.finish(level),
                 None => {
                     eprintln!("unknown property {}", id);
